@@ -11,7 +11,7 @@
      A <now> S <name> <group> <repl> <susp> <tid|nil>      name: -jdnil- | -nil- | -empty- | <name>
      A <now> D|P|R|G <name> <group>                        name: -nil- | <name>
      A <now> C | A <now> K
-     F <now> <thr> <hintname> <hintgroup>                  hint - - : none
+     F <now> <thr> <hintname> <hintgroup>                  hint - - : none;  FX ...: the reschedule Push fails
      X push <name> <group> <prio> <susp> <repl> <tid> | X remove <name> <group> | X clear
    Output per command: <model output> TAB <specification output or ->
      A: <res> [tid:prev:res,...] | {name/group:susp:prio:tid;...}
@@ -222,12 +222,16 @@ let exec toks : string * string =
         reg := r'; sts := sts'; show_sresult sres
       end else "-" in
     (show_result res ^ " " ^ calls evs, spec_out)
-  | ["F"; now; thr; hn; hg] ->
+  | [("F" | "FX") as kind; now; thr; hn; hg] ->
     apply_hint hn hg;
     spec_ok := false;
     let id = nat_of_int !next_id in
     incr next_id;
-    let ((((q', ts'), evs), ret), rst) = M.fetch !ops M.nft_exec (z_of_string thr) (z_of_string now) id M.O !q !ts in
+    (* FX: the same model function over a queue whose next Push fails (a transient queue failure) *)
+    let fail_next = ref (kind = "FX") in
+    let o = !ops in
+    let faulty = { o with M.q_push = (fun e qq -> if !fail_next then (fail_next := false; None) else o.M.q_push e qq) } in
+    let ((((q', ts'), evs), ret), rst) = M.fetch faulty M.nft_exec (z_of_string thr) (z_of_string now) id M.O !q !ts in
     q := q'; ts := ts';
     let r = (match ret with
         | None -> "none"
@@ -278,7 +282,7 @@ let () =
            let toks = tokens line in
            let (m, s) = exec toks in
            (match toks with
-            | ("A" | "F" | "X") :: _ ->
+            | ("A" | "F" | "FX" | "X") :: _ ->
               Buffer.add_string out (m ^ " | " ^ registry ()); Buffer.add_char out '\t';
               Buffer.add_string out (s ^ " | " ^ (if !spec_ok then spec_registry () else "-"))
             | _ -> Buffer.add_string out m; Buffer.add_char out '\t'; Buffer.add_string out s);
